@@ -141,3 +141,28 @@ Section Operands.
       + cbn [vm_kids]. destruct (u_loc u); rewrite Hb; left; reflexivity.
   Qed.
 End Operands.
+
+(* a collection at ANY instruction boundary of ANY execution that starts in a closed state (the fresh VM, a cleared
+   VM, the state a previous run left behind) *)
+Theorem collection_between_instructions F bld P max_instr s0 s :
+  state_closed s0 -> boundary F bld P max_instr s0 s ->
+  exists h', gc (vm_abs F s) (vm_roots s) = Some h' /\
+    (forall a, reach (vm_abs F s) (vm_roots s) a ->
+       exists o, hget (st_heap s) a = Some o /\ h' !! a = Some (Gc.Obj White (vm_kids F s o))) /\
+    (forall a, is_Some (h' !! a) -> reach (vm_abs F s) (vm_roots s) a) /\
+    closed h' /\ no_gray h'.
+Proof.
+  intros H0 Hb. destruct (boundary_closed _ _ _ _ _ _ Hb H0) as [Hs _]. exact (collection_keeps_reachable F s Hs).
+Qed.
+
+(* ... and when a run has ended (normally or with an error) *)
+Theorem collection_after_run F bld budget P s0 o s :
+  state_closed s0 -> run F bld budget P s0 = (o, s) -> (forall a, o <> OAbort a) ->
+  exists h', gc (vm_abs F s) (vm_roots s) = Some h' /\
+    (forall a, reach (vm_abs F s) (vm_roots s) a ->
+       exists ob, hget (st_heap s) a = Some ob /\ h' !! a = Some (Gc.Obj White (vm_kids F s ob))) /\
+    (forall a, is_Some (h' !! a) -> reach (vm_abs F s) (vm_roots s) a) /\
+    closed h' /\ no_gray h'.
+Proof.
+  intros H0 Hr Hna. destruct (run_closed _ _ _ _ _ _ _ H0 Hr Hna) as [Hs _]. exact (collection_keeps_reachable F s Hs).
+Qed.
